@@ -817,3 +817,89 @@ def table_diff(a, b):
             if x.shape != y.shape or not np.array_equal(x, y, equal_nan=(x.dtype.kind == "f")):
                 out.append("%s.%s" % (name, col))
     return out
+
+
+# ----------------------------------------------------------------------------- replay files
+def tc_to_json(tc):
+    """a TableCollection as plain JSON (float columns as uint64 bit patterns: UNKNOWN_TIME survives)"""
+    def conv(x):
+        if isinstance(x, dict):
+            return {k: conv(v) for k, v in x.items()}
+        if isinstance(x, np.ndarray):
+            if x.dtype.kind == "f":
+                return {"__nd__": "f8bits", "v": x.astype(np.float64).view(np.uint64).tolist()}
+            return {"__nd__": x.dtype.str, "v": x.tolist()}
+        if isinstance(x, bytes):
+            return {"__b__": list(x)}
+        if isinstance(x, (np.integer,)):
+            return int(x)
+        if isinstance(x, (np.floating,)):
+            return float(x)
+        return x
+    return conv(tc.asdict())
+
+
+def tc_from_json(j):
+    import tskit
+
+    def conv(x):
+        if isinstance(x, dict):
+            if "__nd__" in x:
+                if x["__nd__"] == "f8bits":
+                    return np.array(x["v"], dtype=np.uint64).view(np.float64)
+                return np.array(x["v"], dtype=np.dtype(x["__nd__"]))
+            if "__b__" in x:
+                return bytes(x["__b__"])
+            return {k: conv(v) for k, v in x.items()}
+        return x
+    return tskit.TableCollection.fromdict(conv(j))
+
+
+def plain(v):
+    """JSON-able copy of a keyword value (numpy scalars / arrays tagged so they can be rebuilt)"""
+    if isinstance(v, np.ndarray):
+        return {"__np__": "array", "v": v.tolist()}
+    if isinstance(v, np.generic):
+        return {"__np__": type(v).__name__, "v": v.item()}
+    if hasattr(v, "as_dict"):
+        d = v.as_dict()
+        return {"__obj__": "PopulationSizeHistory", "v": {k: np.asarray(x).tolist() for k, x in d.items()}}
+    if isinstance(v, dict):
+        return {k: plain(x) for k, x in v.items()}
+    if isinstance(v, (list, tuple)):
+        return [plain(x) for x in v]
+    return v
+
+
+def unplain(v):
+    if isinstance(v, dict):
+        if "__np__" in v:
+            return np.array(v["v"]) if v["__np__"] == "array" else getattr(np, v["__np__"])(v["v"])
+        if "__obj__" in v:
+            import tsdate
+            return tsdate.demography.PopulationSizeHistory(np.array(v["v"]["population_size"]),
+                                                           np.array(v["v"]["time_breaks"]))
+        return {k: unplain(x) for k, x in v.items()}
+    if isinstance(v, list):
+        return [unplain(x) for x in v]
+    return v
+
+
+def hexlist(x):
+    return None if x is None else [float(v).hex() for v in x]
+
+
+def unhexlist(x):
+    return None if x is None else np.array([float.fromhex(v) for v in x], dtype=float)
+
+
+def results_to_json(res):
+    return {"posterior_mean": hexlist(res.posterior_mean), "posterior_var": hexlist(res.posterior_var),
+            "mutation_mean": hexlist(res.mutation_mean), "mutation_var": hexlist(res.mutation_var),
+            "mutation_node": [int(x) for x in res.mutation_node]}
+
+
+def results_from_json(j):
+    from tsdate import core
+    return core.Results(unhexlist(j["posterior_mean"]), unhexlist(j["posterior_var"]), unhexlist(j["mutation_mean"]),
+                        unhexlist(j["mutation_var"]), None, np.array(j["mutation_node"], dtype=np.int32), None)
